@@ -172,6 +172,9 @@ def run_schedule(basedb: str, scenario: str, rows: list[dict], prog: dict, sched
 
 
 def _job(args):
+    import time
+
+    time.sleep = lambda _s: None      # threads run under the baton: real back-off sleeps only slow the replay
     basedb, scenario, rows, prog, scheds, reach, term = args
     return [run_schedule(basedb, scenario, rows, prog, s, reach, term) for s in scheds]
 
